@@ -69,6 +69,7 @@ def _controlled_subcircuit(rng, qs):
     # the form of each condition: plain key, an explicit record index, masked comparisons (one of them the NEGATION of "bit set")
     f1, f2 = rng.choice(["plain", "plain", "first", "mask", "not-mask"]), rng.choice(["plain", "plain", "first", "mask", "not-mask"])
     twice = "first" in (f1, f2)  # key a is then measured twice, so that "the first record" differs from "the latest"
+    use_if = hasattr(cirq, "If") and rng.random() < 0.4  # the same controlled body written as cirq.If(condition, op, op) (a multi-operation body with a nested control)
 
     def cond(form, key):
         key = key if isinstance(key, cirq.MeasurementKey) else cirq.MeasurementKey(key)
@@ -83,7 +84,7 @@ def _controlled_subcircuit(rng, qs):
     again = [cirq.Moment(cirq.X(qs[0]) ** 0.5), cirq.Moment(cirq.measure(qs[0], key="a"))] if twice else []
     inner = cirq.FrozenCircuit(g1(qs[1]).with_classical_controls(cond(f1, k1)), g2(qs[2]))
     body_ops = [cirq.Moment(cirq.X(qs[0]) ** 0.5), cirq.Moment(cirq.measure(qs[0], key="a")), *again, cirq.Moment(cirq.X(qs[2]) ** 0.5), cirq.Moment(cirq.measure(qs[2], key="b")),
-                cirq.CircuitOperation(inner).with_classical_controls(cond(f2, k2))]
+                cirq.If(cond(f2, k2), g1(qs[1]).with_classical_controls(cond(f1, k1)), g2(qs[2])) if use_if else cirq.CircuitOperation(inner).with_classical_controls(cond(f2, k2))]
     if with_c:
         body_ops.append(cirq.Moment(cirq.measure(qs[1], key="c")))
     op = cirq.CircuitOperation(cirq.FrozenCircuit(body_ops))
